@@ -72,7 +72,7 @@ AttrOK(r, e) ==
                                    /\ Covers(ev, lo, hi)
                                    /\ IF IsDevRow(src) THEN ev.id = src.id ELSE (~IsDevRow(ev) /\ SameThread(ev, src))
          [] OTHER -> TRUE
-C10(r) ==
+C10Once(r) ==
   IF r.err # "" \/ ~r.success THEN [analysis_succeeded |-> FALSE] ELSE
   LET CE == CritEdges(r)
       total == SumSet(CE, [e \in CE |-> e.w])
@@ -91,6 +91,14 @@ C10(r) ==
                               IN Abs(s.pct * total - 100000 * part) <= total
                         /\ Abs(SumSeq([k \in DOMAIN r.summary |-> r.summary[k].pct]) - 100000) <= Len(r.summary)
                         /\ { s.bound : s \in Range(r.summary) } = { b.bound : b \in BdRows(r) } ]
+
+\* call history on one graph object: after a what-if edit of the live graph and critical_path() again, the breakdown and the summary
+\* read again must satisfy every clause with respect to the edited graph and the recomputed path
+AfterEdit(r) == [r EXCEPT !.edges = r.again.edges, !.p = r.again.p, !.bd = r.again.bd, !.summary = r.again.summary]
+C10(r) == LET c == C10Once(r) IN
+          IF r.err = "" /\ r.success /\ r.again.ok
+          THEN c @@ [after_recompute |-> LET d == C10Once(AfterEdit(r)) IN \A k \in DOMAIN d : d[k]]
+          ELSE c
 
 C08Tags(r) == {}
 Clauses(r) == CASE r.prop = "C08" -> C08(r)
